@@ -8,18 +8,23 @@ import sys, os, re, json, glob, collections
 ROOT = os.path.dirname(os.path.dirname(os.path.abspath(__file__)))
 struct, oblj = sys.argv[1], sys.argv[2]
 hits = collections.defaultdict(lambda: collections.defaultdict(list))     # variant -> property -> [lines]
-cur = None
-for l in open(struct, errors="replace"):
-    if l.startswith("== "): cur = l.split()[1]; continue
-    m = re.match(r"\s+V (C\d\d)\.(\S+) (.*)$", l)
-    if m and cur: hits[cur][m.group(1)].append(f"{m.group(1)}.{m.group(2)} {m.group(3).strip()}")
-    m = re.match(r"\s+EXC (C\d\d) (.*)$", l)
-    if m and cur: hits[cur][m.group(1)].append(f"{m.group(1)}.analysis analysis-error {m.group(2).strip()}")
+# STRUCT may be several files separated by commas; `file@v1+v2` = a later re-run of just these variants (their earlier results are dropped)
+for spec in struct.split(","):
+    fn_, _, only = spec.partition("@")
+    for v_ in (only.split("+") if only else []): hits.pop(v_, None)
+    cur = None
+    for l in open(fn_, errors="replace"):
+        if l.startswith("== "): cur = l.split()[1]; continue
+        m = re.match(r"\s+V (C\d\d)\.(\S+) (.*)$", l)
+        if m and cur: hits[cur][m.group(1)].append(f"{m.group(1)}.{m.group(2)} {m.group(3).strip()}")
+        m = re.match(r"\s+EXC (C\d\d) (.*)$", l)
+        if m and cur: hits[cur][m.group(1)].append(f"{m.group(1)}.analysis analysis-error {m.group(2).strip()}")
 OBLP = set()
 if os.path.exists(oblj):
     j = json.load(open(oblj))
     for v, per in j.items():
         for c, (rc, lines) in per.items():
+            if rc == -1: continue           # skipped by SM_SMART (the variant does not touch the crate of that check's abstract-interpretation scope)
             OBLP.add(c)
             hits[v].pop(c, None)            # the full check of that property supersedes its structural-only run
             if rc == 1: hits[v][c] = [x.strip()[3:] for x in lines] or ["(violation)"]
